@@ -379,14 +379,25 @@ def run(ctx):
     skip = any(x.k == 'bin' and x.op in ('==', '!=') and x.args[1].const == ord('>') for x in gf.all_x())
     r4.check(okg and skip, 'gfrom-skips->-and-compares-"From "', 'gfrom.c', 'gfrom must skip leading ">" and compare 5 bytes with "From "')
     mainf = prog.fn('main', 'qmail-local.c')
-    dash = [x for x in mainf.all_x() if x.k == 'asg' and x.op == '=' and (x.args[0].var or '').startswith('L:ch') and x.args[1].const == ord('-')]
-    consts = set()
-    if dash:
-        tb = mainf.pos[dash[0].id][0]
-        for b in mainf.blocks.values():
-            c = b.cond
-            if c is not None and c.strip().k == 'bin' and c.strip().op == '==' and (c.strip().args[0].var or '').startswith('L:ch') and b.succs and b.succs[0] == tb:
-                consts.add(c.strip().args[1].const)
-    r4.check(consts == {32, 9, 10}, 'From_-line-maps-space,tab,newline', mainf.unit + ':main', 'bytes of the sender replaced by "-": %s' % sorted(consts))
+    # the From_ line: which bytes of the sender are replaced by '-'
+    from qv.lib import values_reaching
+    dash = [x for x in mainf.all_x() if x.k == 'asg' and x.op == '=' and x.args[0].var and x.args[0].var[:2] == 'L:' and x.args[1].const == ord('-')]
+    consts = None
+    for dsh in dash:
+        var = dsh.args[0].var
+        loads = [x for x in mainf.all_x() if x.k == 'asg' and x.op == '=' and x.args[0].var == var and 'sender[' in x.args[1].src()]
+        if not loads:
+            continue
+        lb = mainf.pos[loads[0].id][0]
+        # start after the block that loads the byte: its successors
+        vals = set()
+        for sblk in mainf.blocks[lb].succs:
+            if sblk is not None:
+                vals |= values_reaching(mainf, var, sblk, mainf.pos[dsh.id][0], range(-128, 128), stop_blocks={lb})
+        if mainf.blocks[lb].cond is not None:
+            # the load and the first test share a block
+            vals = values_reaching(mainf, var, lb, mainf.pos[dsh.id][0], range(-128, 128))
+        consts = vals
+    r4.check(consts == {32, 9, 10}, 'From_-line-maps-space,tab,newline', mainf.unit + ':main', 'bytes of the sender replaced by "-": %s' % (sorted(consts) if consts is not None else 'site not found'))
     r4.expect_min(3)
     rep.assume('fsync durability, atomic link, O_EXCL and flock semantics', 'the round trip of the mbox quoting for all messages is not decided')
